@@ -1,6 +1,7 @@
 SPECIFICATION Spec
 CONSTANTS
   Rich = FALSE
+  KeepParams = FALSE
   LengthFastPath = FALSE
   StrictIdText = FALSE
 INVARIANTS RejectInvalidLaw
